@@ -25,6 +25,8 @@ def bootstrap():
         sys.path.insert(0, p)
     import warnings
     warnings.simplefilter("ignore")
+    from harness.mathstub import install_global_math
+    install_global_math()       # before pams is imported (covers `from math import isclose` too)
     import pams  # noqa
     if not os.path.abspath(pams.__file__).startswith(REPO + os.sep):
         raise RuntimeError(f"pams imported from {pams.__file__}, expected under {REPO}")
